@@ -570,6 +570,9 @@ class GroupBy:
         elif keep_chunked:
             # no pointers to unify, but we want to keep chunked so do nothing
             return
+        else:
+            # codes are already global (unified earlier with keep_chunked=True)
+            chunks = [k.to_numpy() for k in self._group_ikey.chunks]
 
         if keep_chunked:
             self._group_ikey = pa.chunked_array(chunks)
